@@ -221,6 +221,19 @@ theorem widths2_spec (es : List W2Entry) (dw2 : Option (Rat × Rat)) (cid : Nat)
   | none => simp [Gen.CIDFont.DW2_DEFAULT]
   | some w => simp
 
+/-- Vertical placement: the position vector used for a cid is the one of the font's own latest `W2` entry
+covering it, else the default `(none, DW2[0])` with 880 when `DW2` is absent (a function of this font's
+arrays only). -/
+theorem disp2_spec (es : List W2Entry) (dw2 : Option (Rat × Rat)) (cid : Nat) :
+    (getWidths2 (renderW2 es)).toOption.map (fun m => glyphDispV m dw2 cid) = some (specDispV es dw2 cid) := by
+  rw [widths2_map_spec]
+  simp only [Except.toOption, Option.map_some, Option.some.injEq]
+  unfold glyphDispV specDispV
+  rw [lookup_toW2Map]
+  cases (specWidth2Pairs es).reverse.lookup (cid : Int) with
+  | none => simp [Gen.CIDFont.DW2_DEFAULT]
+  | some w => simp
+
 /-- non-vacuity: `[1 [-500 250 800 -600 300 810] 10 12 -700 500 880]`. -/
 def exampleW2 : List W2Entry :=
   [.list 1 [((-500, true), (250, true), (800, true)), ((-600, true), (300, true), (810, true))],
@@ -228,6 +241,9 @@ def exampleW2 : List W2Entry :=
 
 example : (List.range 13).map (specWidthV exampleW2 (some (880, -900))) =
     [-900, -500, -600, -900, -900, -900, -900, -900, -900, -900, -700, -700, -700] := by decide +kernel
+
+example : specDispV exampleW2 none 2 = (some 300, 810) ∧ specDispV exampleW2 none 3 = (none, 880) ∧
+    specDispV exampleW2 (some (800, -900)) 65535 = (none, 800) := by decide +kernel
 
 /-! ## Advances (pen movement) -/
 
